@@ -70,7 +70,7 @@ inductive Cas where
   deriving DecidableEq, Repr
 
 inductive Err where
-  | casMismatch | casRequired | casParse | noVersions | storage | missingBlob | mcasMismatch | mcasNotZero
+  | casMismatch | casRequired | casParse | noVersions | storage | missingBlob | mcasMismatch | mcasNotZero | badPath
   deriving DecidableEq, Repr
 
 inductive Resp where
@@ -488,6 +488,34 @@ def Op.path? : Op → Option String
   | .write p _ _ | .patch p _ _ | .read p _ | .delete p | .deleteV p _ | .undelete p _ | .destroy p _
   | .metaWrite p _ | .metaPatch p _ | .metaRead p | .metaDelete p => some p
   | .confWrite _ _ _ | .confRead => none
+
+/-! ### secret names
+
+The metadata of a secret is stored under `path.Clean` of its name (`keysutil.EncryptedKeyStorageWrapper.encryptPath`),
+its lock and its version blobs under the name as given: two names with the same cleaned form would share metadata but
+not versions. `upgradeCheck` — through which every handler goes — therefore refuses a name that is not its own cleaned
+form (repair F68); the model's `paths` map is keyed by names in that form. -/
+
+/-- `strings.TrimPrefix(path.Clean(p), "/")` for names without `.` / `..` segments (the harness drives none) -/
+def splitSlash : List Char → List Char → List (List Char)
+  | [], cur => [cur.reverse]
+  | c :: cs, cur => if c = '/' then cur.reverse :: splitSlash cs [] else splitSlash cs (c :: cur)
+
+def joinSlash : List (List Char) → List Char
+  | [] => []
+  | [x] => x
+  | x :: y :: r => x ++ '/' :: joinSlash (y :: r)
+
+def cleanName (p : String) : String :=
+  String.ofList (joinSlash ((splitSlash p.toList []).filter (fun seg => !seg.isEmpty)))
+
+def canonicalName (p : String) : Bool := cleanName p == p
+
+/-- the request as the backend serves it: a name that is not in cleaned form is refused before any handler runs -/
+def stepC (s : State) (op : Op) : State × Resp :=
+  match op.path? with
+  | some p => if canonicalName p then step s op else (s, .err .badPath)
+  | none => step s op
 
 /-! ### Concurrency (DESIGN section 4): per-key lock, handler body at storage-operation granularity.
 
